@@ -188,18 +188,23 @@ def gen_world_case(rng, i):
     else:
         rng.shuffle(items)
     ftype = rng.choice(['continental plate', 'oceanic plate', 'mantle layer'])
-    f = {'model': ftype, 'name': 'the feature', 'coordinates': [list(p) for p in poly], which: items,
-         'composition models': [{'model': 'uniform', 'compositions': [0]}]}
-    other = None
-    if which == 'max depth':
-        pass
-    else:
-        other = f['max depth'] = 1.0e6
+    # the surface belongs to the feature or to one of its models (every area feature type x temperature / composition / velocity model):
+    # the model then applies between its own local bounds, and the probe looks at the value only that model paints
+    level = rng.choice(['feature', 'feature', 'composition model', 'temperature model', 'velocity model'])
+    f = {'model': ftype, 'name': 'the feature', 'coordinates': [list(p) for p in poly],
+         'composition models': [{'model': 'uniform', 'compositions': [0]}], 'temperature models': [{'model': 'uniform', 'temperature': 111.0}],
+         'velocity models': [{'model': 'uniform raw', 'velocity': [0.25, 0.0, 0.0]}]}
+    holder = f if level == 'feature' else f[level + 's'][0]
+    holder[which] = items
+    if which != 'max depth':
+        holder['max depth'] = 1.0e6
+    if level != 'feature':
+        f['max depth'] = 6.0e6
     doc['features'] = [f]
     fn = 'w%d.wb' % i
     c = core.Case('w%d' % i, files={fn: wg.dumps(doc)})
     world(c, 1, core.workfile(PID, fn))
-    props = [(4, 0, 0), (2, 0, 0)]
+    props = [(4, 0, 0), (2, 0, 0), (1, 0, 0), (5, 0, 0)]
     plan = []
     node_values = {}
     for k, p in enumerate(poly):
@@ -250,12 +255,19 @@ def gen_world_case(rng, i):
                 i2 = q3(c, 1, ctx, x, y, vmin * (1 - 1e-9), props)      # absent (above every nodal min depth)
             plan.append(('bounds', (x, y), (vmin, vmax), i1, i2, None))
     zero_listed = any((poly[k][0] == 0.0 or poly[k][1] == 0.0) for k in corner_listed)
-    t = {'which': which, 'poly': poly, 'items': items, 'sph': sph, 'base': base, 'fn': fn, 'node_values': node_values, 'default_nodes': base is None and len(corner_listed) < len(poly), 'zero_listed': zero_listed}
+    t = {'level': level, 'which': which, 'poly': poly, 'items': items, 'sph': sph, 'base': base, 'fn': fn, 'node_values': node_values, 'default_nodes': base is None and len(corner_listed) < len(poly), 'zero_listed': zero_listed}
     return c, t, plan
 
 
-def present(res):
-    return vals(res)[0] == 0.0
+def present(res, level='feature'):
+    v = vals(res)       # tag, composition 0, temperature, velocity
+    if level == 'feature':
+        return v[0] == 0.0
+    if level == 'composition model':
+        return v[1] == 1.0
+    if level == 'temperature model':
+        return v[2] == 111.0
+    return v[3] == 0.25
 
 
 def check_world(V, c, t, plan):
@@ -266,20 +278,21 @@ def check_world(V, c, t, plan):
         V.notes.append(c.results[0][1][:150]) if len(V.notes) < 5 else None
         return
     is_max = t['which'] == 'max depth'
+    lv = '' if t['level'] == 'feature' else ':' + t['level'].replace(' ', '-')
     for (kind, p, v, i1, i2, extra) in plan:
         V.count()
         r1 = c.results[i1]
         r2 = c.results[i2] if i2 is not None else None
-        detail = {'world': t['fn'], 'which': t['which'], 'items': t['items'], 'polygon': t['poly'], 'point': p, 'value': v, 'kind': kind, 'r1': r1, 'r2': r2}
+        detail = {'world': t['fn'], 'level': t['level'], 'which': t['which'], 'items': t['items'], 'polygon': t['poly'], 'point': p, 'value': v, 'kind': kind, 'r1': r1, 'r2': r2}
         if not ok(r1) or (r2 is not None and not ok(r2)):
             V.violation('query-threw:%s' % kind, detail)
             continue
         if kind == 'default-corner':
-            if not present(r1):
-                V.violation('unlisted-corner-does-not-get-the-documented-default:%s' % t['which'], detail)
+            if not present(r1, t['level']):
+                V.violation('unlisted-corner-does-not-get-the-documented-default:%s%s' % (t['which'], lv), detail)
             V.nontrivial(('default', t['fn'], p))
             continue
-        a, b = present(r1), present(r2)
+        a, b = present(r1, t['level']), present(r2, t['level'])
         # (a, b) = (present shallower, present deeper) for max depth; for min depth (absent shallower -> present deeper) mirrored
         if kind == 'bounds':
             good = a and not b
@@ -296,9 +309,9 @@ def check_world(V, c, t, plan):
         elif kind in ('listed', 'listed-corner') and is_max and t['default_nodes']:
             key = 'max-depth:listed-point-next-to-DBL_MAX-default-corner'
         elif kind == 'bounds':
-            key = 'interpolated-depth-outside-nodal-range:%s' % t['which']
+            key = 'interpolated-depth-outside-nodal-range:%s%s' % (t['which'], lv)
         else:
-            key = 'listed-value-not-honoured:%s:%s' % (kind, t['which'])
+            key = 'listed-value-not-honoured:%s:%s%s' % (kind, t['which'], lv)
         V.violation(key, detail)
     V.sample({'world': t['fn'], 'which': t['which'], 'items': t['items'][:4], 'polygon': t['poly']}, limit=3)
 
